@@ -160,7 +160,7 @@ impl Condvar {
         m.locked.store(false, Ordering::SeqCst);
         let deadline = {
             let mut g = rt.inner.lock().unwrap();
-            let d = dur.map(|d| g.clock + d.as_nanos() as u64);
+            let d = dur.map(|d| g.clock.saturating_add(crate::sched::nanos_sat(d)));
             g.log(me, format!("wait {} {}", self.site, match dur { Some(d) => d.as_nanos().to_string(), None => "inf".into() }));
             g.wake_all_on(&Res::Mutex(m.id), Wake::Ready);
             d
@@ -310,7 +310,7 @@ pub mod mpsc {
         pub fn recv_timeout(&self, d: Duration) -> Result<T, RecvTimeoutError> {
             let (rt, me) = current();
             rt.yield_point(me);
-            let deadline = rt.now() + d.as_nanos() as u64;
+            let deadline = rt.now().saturating_add(crate::sched::nanos_sat(d));
             loop {
                 if let Some(v) = self.c.q.lock().unwrap().pop_front() {
                     return Ok(v);
